@@ -15,6 +15,8 @@
 (*   "perms"    every ordering of every bag that has exactly one valid      *)
 (*              arrangement, then to_string                 (C12)           *)
 (*   "removal"  up to Depth-1 accepted adds, one removal, one probe (C11)    *)
+(*   "cover"    one shortest valid word through every follow edge of the    *)
+(*              content model's automaton, in order, then to_string (C02)  *)
 (***************************************************************************)
 EXTENDS SchemaDerived, Report, Naturals, Sequences, FiniteSets
 
@@ -34,8 +36,9 @@ NoFwd == 0 - 1
 VARIABLES T, Chk, Family,   \* chosen in the initial state, constant afterwards
           ins,    \* names of the children the specification expects to be attached, insertion order
           hist,   \* the operations so far
-          rare    \* number of "rare" operations used (replace / forward / dot / intelligent choice)
-vars == <<T, Chk, Family, ins, hist, rare>>
+          rare,   \* number of "rare" operations used (replace / forward / dot / intelligent choice)
+          plan    \* family "cover": the valid word being supplied (<<>> otherwise)
+vars == <<T, Chk, Family, ins, hist, rare, plan>>
 
 A == ModelOf[T].A
 P == ModelOf[T].P
@@ -59,10 +62,11 @@ ExpectAdd(a) == IF Chk THEN Ext(A, P, FD, Append(ins, a)) ELSE TRUE
 Init == /\ T \in Types /\ Chk \in Chks /\ Family \in Families
         /\ (Family # "uniform" => Chk)       \* the word families are about checked elements
         /\ ins = <<>> /\ hist = <<>> /\ rare = 0
-Fixed == UNCHANGED <<T, Chk, Family>>
+        /\ plan \in (IF Family = "cover" THEN EdgeCoverWords(ModelOf[T].A) ELSE {<<>>})
+Fixed == UNCHANGED <<T, Chk, Family, plan>>
 
 AddOp(a, f) ==
-  /\ Count(ins, a) < MaxPerSym
+  /\ (Family = "cover" \/ Count(ins, a) < MaxPerSym)
   /\ LET ok == ExpectAdd(a) IN
      /\ ins' = IF ok THEN Append(ins, a) ELSE ins
      /\ hist' = Append(hist, [op |-> "add", sym |-> a, fwd |-> f, idx |-> 0, ic |-> FALSE,
@@ -119,6 +123,11 @@ Perms ==
         /\ \E a \in Sigma : ExpectAdd(a) /\ AddOp(a, NoFwd)
      \/ (Len(ins) > 0 /\ UniqueArr(A, ins) /\ ToStr(FALSE))
 
+\* cover: one shortest valid word through every follow edge of the automaton, supplied in order
+Cover ==
+  /\ ~Ended
+  /\ IF Len(hist) < Len(plan) THEN AddOp(plan[Len(hist) + 1], NoFwd) ELSE ToStr(FALSE)
+
 \* removal: accepted adds, then exactly one removal, then one probe of any kind
 Removed == \E j \in DOMAIN hist : hist[j].op = "remove"
 Removal ==
@@ -135,6 +144,7 @@ Next == /\ Fixed
              [] Family = "words" -> Words
              [] Family = "perms" -> Perms
              [] Family = "removal" -> Removal
+             [] Family = "cover" -> Cover
 Spec == Init /\ [][Next]_vars
 
 \* a behaviour is emitted at the leaves of the exploration (interior nodes are prefixes of leaves)
@@ -142,5 +152,6 @@ Leaf == CASE Family = "uniform" -> Len(hist) = Depth
           [] Family = "words" -> Ended
           [] Family = "perms" -> Ended
           [] Family = "removal" -> Removed /\ hist[Len(hist)].op # "remove"
+          [] Family = "cover" -> Ended
 Emit == Leaf => Report([type |-> T, chk |-> Chk, fam |-> Family, ops |-> hist])
 ====
